@@ -219,6 +219,45 @@ def _mutations(func):
     return out
 
 
+def _fresh_dict_expr(e):
+    if isinstance(e, ast.Dict):
+        return True
+    if isinstance(e, ast.Call) and isinstance(e.func, ast.Attribute) and e.func.attr == "copy" and not e.args:
+        return True
+    if isinstance(e, ast.Call) and call_name(e) == "dict":
+        return True
+    if isinstance(e, ast.IfExp):
+        return _fresh_dict_expr(e.body) and _fresh_dict_expr(e.orelse)
+    return False
+
+
+def header_mutation_paths(repo, do_req):
+    """[(mutation node, path or None)] for the in-place changes of `headers` in do_request (private helpers expanded): path is a
+    list of line numbers along which `headers` is still the caller's object when the change happens, None when on every path it
+    was re-bound to the request record's copy or to a fresh dict first.  Shared by C17 (R17b) and C16 (R16f)."""
+    from sa.inline import inlined as _inl
+    from sa.cfg import CFG
+    fn, _u = _inl(repo.modules[REL], do_req, nested=True)
+    un = [st for st in walk_local(fn) if isinstance(st, ast.Assign) and isinstance(st.targets[0], ast.Tuple) and isinstance(st.value, ast.Call) and call_name(st.value) == "args"]
+    g = CFG(fn)
+    avoid = set()
+    for st in walk_local(fn):
+        if isinstance(st, ast.Assign):
+            fresh = (st in un and any(is_name(e, "headers") for e in st.targets[0].elts)) or any(is_name(t, "headers") for t in st.targets) and _fresh_dict_expr(st.value)
+            if fresh and g.node_of(st) is not None:
+                avoid.add(g.node_of(st).id)
+    out = []
+    for node, basetxt, how in _mutations(fn):
+        if basetxt.split(".")[0].split("[")[0] != "headers":
+            continue
+        tgt = g.node_of(enclosing_stmt(node))
+        if tgt is None:
+            raise AnalysisError("R17b", f"{REL}::do_request", "statement of a header mutation not found in the flow graph")
+        pth = g.reach_avoiding(g.entry, {tgt.id}, avoid, follow_raise=False)
+        out.append((node, None if pth is None else [getattr(x.ast, "lineno", None) for x in pth if x.ast is not None][-6:]))
+    return out
+
+
 def _r17b(cx, repo, do_req, ra_init, ra_args):
     # the record copies the headers
     hs = [st for st in walk_local(ra_init) if isinstance(st, ast.Assign) and any(is_self_attr(t, "headers") for t in st.targets)]
@@ -248,18 +287,36 @@ def _r17b(cx, repo, do_req, ra_init, ra_args):
     want = ["self." + p for p in params(ra_init)[1:]]
     cx.ob("R17b", ra_args, fields == want, "args() returns the record's own fields in order" if fields == want else f"args() returns {fields}, constructor order is {want}")
     # do_request: the record is built from the arguments in order
+    # (private helpers expanded in place: header defaults may be set in helpers that receive the dict)
+    from sa.inline import inlined as _inl
+    from sa.guards import xnorm_at as _xn
+    do_req, _used_b = _inl(repo.modules[REL], do_req, nested=True)
+    if _used_b:
+        cx.note(f"R17b: do_request analysed with {_used_b} expanded in place")
     mk = [c for c in walk_local(do_req) if isinstance(c, ast.Call) and call_name(c) == "RequestArguments"]
     cx.need(len(mk) == 1, "R17b", do_req, "one RequestArguments construction expected")
-    got = [norm(a) for a in mk[0].args]
+    got = [_xn(a, mk[0]) for a in mk[0].args]
     want = ["self.address", "path", "method", "params", "data", "headers"]
     cx.ob("R17b", mk[0], got == want, "record is built from (address, path, method, params, data, headers)" if got == want else f"record built from {got}")
-    # unpack statement
-    un = [st for st in do_req.body if isinstance(st, ast.Assign) and isinstance(st.targets[0], ast.Tuple) and isinstance(st.value, ast.Call) and call_name(st.value) == "args"]
-    cx.need(len(un) == 1, "R17b", do_req, "unpacking of req_args.args() expected at the top level of do_request")
+    # unpack statement(s): where the function takes the record's own copies back
+    un = [st for st in walk_local(do_req) if isinstance(st, ast.Assign) and isinstance(st.targets[0], ast.Tuple) and isinstance(st.value, ast.Call) and call_name(st.value) == "args"]
+    cx.need(len(un) == 1, "R17b", do_req, "unpacking of req_args.args() expected in do_request")
     unpack = un[0]
     names = [e.id for e in unpack.targets[0].elts]
     cx.ob("R17b", unpack, names == ["address", "path", "method", "params", "data", "headers"], "unpacked in field order" if names == ["address", "path", "method", "params", "data", "headers"] else f"unpacked as {names}")
-    idx = do_req.body.index(unpack)
+    # every in-place change of `headers` happens on a dict of this call: on every path from the entry to the change, `headers`
+    # was bound to the record's copy (the unpacking) or to a fresh dict - never still the caller's object
+    from sa.cfg import CFG
+    g = CFG(do_req)
+    fresh_nodes = set()
+    for st in walk_local(do_req):
+        if isinstance(st, ast.Assign):
+            for t in st.targets:
+                if st is unpack and "headers" in names:
+                    fresh_nodes.add(id(st))
+                elif is_name(t, "headers") and fresh_dict(st.value):
+                    fresh_nodes.add(id(st))
+    avoid = {g.node_of(st).id for st in walk_local(do_req) if id(st) in fresh_nodes and g.node_of(st) is not None}
     caller_owned = {"headers", "params", "data"}
     n = 0
     for node, basetxt, how in _mutations(do_req):
@@ -269,14 +326,14 @@ def _r17b(cx, repo, do_req, ra_init, ra_args):
         if how == "augmented assignment" and root in ("path",):
             continue
         n += 1
-        st = enclosing_stmt(node)
-        top = st
-        while parent(top) is not do_req:
-            top = parent(top)
-        after = do_req.body.index(top) > idx
         if root == "headers":
-            cx.ob("R17b", node, after, "mutates the header copy obtained from the request record" if after else
-                  "mutates the caller's headers dict (before it is replaced by the record's copy)")
+            tgt = g.node_of(enclosing_stmt(node))
+            cx.need(tgt is not None, "R17b", node, "statement of a header mutation not found in the flow graph")
+            pth = g.reach_avoiding(g.entry, {tgt.id}, avoid, follow_raise=False)
+            ok_h = pth is None
+            cx.ob("R17b", node, ok_h, "mutates the header copy of this call (record copy / fresh dict on every path)" if ok_h else
+                  "mutates the caller's headers dict: on the path through lines " + str([getattr(x.ast, "lineno", None) for x in pth if x.ast is not None][-6:]) +
+                  " `headers` is still the object the caller passed (the generated X-Request-ID / Content-Type stays in the caller's dict and is sent again with the next request)")
         else:
             cx.ob("R17b", node, False, f"{how} on the caller's {root} object")
     cx.at_least("R17b", "header mutations in do_request", n, 2)
